@@ -1404,3 +1404,91 @@ theorem C03_gen_pairpos_span :
     = .ok (Gen.PairFlag.pairMasksHit, Gen.PairFlag.pairAppliedHit) := by rfl
 
 end RbModel.PairFlag
+
+/-! ### pair kerning / pair positioning: the reads are complete (decision locality), and the frame of the whole kern loop -/
+namespace RbModel.PairFlag
+open RbModel RbModel.Gsub RbModel.GposFlag RbModel.Flags
+open RbModel.Gpos (Pos Dir ValueRecordD)
+
+/-- **the kern decision depends on the glyphs read and on nothing else**: two buffers of the same length that hold the same
+    glyph at `i` and at every index the iterator read (in the first) go through the same iteration — same event (pair, reads,
+    kerning value), same next `i`, same new positions, same attachment flag.  So the list of reads in
+    `C03_kern_pair_flags_inspected` is complete: nothing outside `{i} ∪ reads ⊆ [i, j + 1)` can influence what the pair does. -/
+theorem C03_kern_decision_local (cm : Bool) (f : Font) (kernMask : Nat) (h cs : Bool) (kernOf : Nat → Nat → Int) (i : Nat)
+    (b1 b2 : Buf) (p : Array Pos) (fl : Bool) (i1 i2 : Nat) (b1' b2' : Buf) (p1 p2 : Array Pos) (fl1 fl2 : Bool)
+    (ev1 ev2 : Option KEvent)
+    (h1 : kernStepFI cm f kernMask h cs kernOf i b1 p fl = .ok ((i1, b1', p1, fl1), ev1))
+    (h2 : kernStepFI cm f kernMask h cs kernOf i b2 p fl = .ok ((i2, b2', p2, fl2), ev2))
+    (hi : i < b1.len) (hlen : b2.len = b1.len) (hcur : b1.info[i]? = b2.info[i]?)
+    (hag : ∀ e, ev1 = some e → ∀ r ∈ e.reads, b1.info[r]? = b2.info[r]?) :
+    ev2 = ev1 ∧ i2 = i1 ∧ p2 = p1 ∧ fl2 = fl1 := by
+  have d1 := kernStepFI_decide _ _ _ _ _ _ _ _ _ _ _ _ h1
+  have d2 := kernStepFI_decide _ _ _ _ _ _ _ _ _ _ _ _ h2
+  have d1' := kernDecideI_local f kernMask kernOf i b1.info b2.info b1.len ev1 d1 hcur hag
+  rw [hlen, d1'] at d2
+  have hev : ev2 = ev1 := (Except.ok.inj d2).symm
+  subst hev
+  obtain ⟨g1, hg1, s1, s2⟩ := kernStepFI_spec _ _ _ _ _ _ _ _ _ _ _ _ _ _ _ h1 hi
+  obtain ⟨g2, hg2, t1, t2⟩ := kernStepFI_spec _ _ _ _ _ _ _ _ _ _ _ _ _ _ _ h2 (by omega)
+  refine ⟨rfl, ?_⟩
+  cases ev2 with
+  | none =>
+    obtain ⟨_, a1, _, a2, a3⟩ := s1 rfl
+    obtain ⟨_, c1, _, c2, c3⟩ := t1 rfl
+    exact ⟨by omega, by rw [a2, c2], by rw [a3, c3]⟩
+  | some e =>
+    obtain ⟨_, _, u1, u2⟩ := s2 e rfl
+    obtain ⟨_, _, v1, v2⟩ := t2 e rfl
+    cases hf : e.found with
+    | false =>
+      obtain ⟨a1, a2, a3, _⟩ := u1 hf
+      obtain ⟨c1, c2, c3, _⟩ := v1 hf
+      exact ⟨by omega, by rw [a2, c2], by rw [a3, c3]⟩
+    | true =>
+      obtain ⟨a1, _, _, _, _, _, _, _, k0, k1⟩ := u2 hf
+      obtain ⟨c1, _, _, _, _, _, _, _, l0, l1⟩ := v2 hf
+      refine ⟨by omega, ?_⟩
+      by_cases hk : e.kern = 0
+      · obtain ⟨_, a2, a3⟩ := k0 hk
+        obtain ⟨_, c2, c3⟩ := l0 hk
+        exact ⟨by rw [a2, c2], by rw [a3, c3]⟩
+      · obtain ⟨f1, x1, x2, _⟩ := k1 hk
+        obtain ⟨f2, y1, y2, _⟩ := l1 hk
+        rw [x1] at y1
+        simp only [Except.ok.injEq, Prod.mk.injEq] at y1
+        exact ⟨y1.1.symm, by rw [x2, y2, y1.2]⟩
+
+-- non-vacuity: change the glyph AFTER the right base (index 4, never read) — the pair (0, 3) is kerned all the same
+example : ((kernStepFI false {} 256 true false spanKernOf 0
+      { spanKernBuf 64 256 with info := (spanKernBuf 64 256).info ++ [infoK (5, 256, 2, 7, 4)], len := 5 } spanKernPos false).map
+        (fun r => r.2.map KEvent.view),
+    (kernStepFI false {} 256 true false spanKernOf 0
+      { spanKernBuf 64 256 with info := (spanKernBuf 64 256).info ++ [infoK (9, 0, 8, 39, 9)], len := 5 } spanKernPos false).map
+        (fun r => r.2.map KEvent.view))
+    = (.ok (some (0, [1, 2, 3], true, 3, -50)), .ok (some (0, [1, 2, 3], true, 3, -50))) := by rfl
+
+/-- **the PairPos decision depends on the glyphs read and on nothing else**: a context with the same lookup settings and buffer
+    geometry whose buffer holds the same glyphs at the indices read finds the same second glyph on the same path. -/
+theorem C03_pairpos_decision_local (c1 c2 : Ctx) (hs : Similar c1 c2) (pd : PairData) (found : PairFound) (rs : List Nat)
+    (why : PairWhy) (h : pairFindI c1 pd = .ok (found, rs, why))
+    (hag : ∀ i ∈ rs, c1.buf.info[i]? = c2.buf.info[i]?) : pairFindI c2 pd = .ok (found, rs, why) :=
+  pairFindI_local hs pd found rs why h hag
+
+example : ∃ c2 : Ctx, Similar (spanPairCtx 64 3) c2 ∧ c2.buf.info ≠ (spanPairCtx 64 3).buf.info ∧
+    ∀ i ∈ [0, 1, 2], (spanPairCtx 64 3).buf.info[i]? = c2.buf.info[i]? :=
+  ⟨{ spanPairCtx 64 3 with buf := { (spanPairCtx 64 3).buf with info := (spanPairCtx 64 3).buf.info ++ [{ gid := 77 }] } },
+   ⟨rfl, rfl, rfl, rfl, rfl, rfl, rfl, rfl, rfl, rfl, rfl⟩, by decide, by decide⟩
+
+/-- **frame of the whole kern loop** (machine_kern and the kerx copy, any fuel, any start): the position array keeps its size and
+    a glyph that is neither the left nor the right glyph of a pair with a non-zero value keeps its position — in particular the
+    skipped marks between the two bases of a pair (cross-stream subtables included: they write `pos[j]` only, see
+    `C03_kern_pair_flags_inspected`; the offsets that `position_finish_offsets` later accumulates along the attachment chain are
+    the recorded finding C03-cross-stream-kern). -/
+theorem C03_kern_loop_frame (cm : Bool) (f : Font) (kernMask : Nat) (h cs : Bool) (kernOf : Nat → Nat → Int) (fuel i : Nat)
+    (b : Buf) (p : Array Pos) (fl : Bool) (bF : Buf) (pF : Array Pos) (flF : Bool) (evs : List KEvent) (iEnd : Nat)
+    (hr : machineKernLoopFI cm f kernMask h cs kernOf fuel i b p fl = .ok ((bF, pF, flF), evs, iEnd)) :
+    pF.size = p.size ∧
+    ∀ q, (∀ e ∈ evs, e.found = true → e.kern ≠ 0 → q ≠ e.i ∧ q ≠ e.stop) → pF[q]? = p[q]? :=
+  machineKernLoopFI_frame cm f kernMask h cs kernOf fuel i b p fl bF pF flF evs iEnd hr
+
+end RbModel.PairFlag
